@@ -12,6 +12,7 @@ from ..ref import quat as rq
 PROP = "C18"
 LEVEL = "exploration"
 SHARDS = {"quick": 2, "thorough": 16}
+THOROUGH_DEPTH = 20      # thorough tier = this many times the base thorough budget (VERIF_DEPTH overrides)
 S2 = np.sqrt(2.0)
 CLOSED = {
     "angular_distance": lambda t: S2 * t,
